@@ -18,5 +18,6 @@ for id in "$@"; do
   v=$(echo "$out" | grep -c '^VIOLATION property='"$id")
   if [ $rc -eq 1 ] && [ "$v" -ge 1 ]; then verdict=CAUGHT; elif [ $rc -eq 0 ]; then verdict=MISSED; else verdict="BROKEN(rc=$rc)"; fi
   echo "$id $tier $verdict :: $(echo "$out" | grep -A2 '^VIOLATION' | tr '\n' ' ' | cut -c1-420)"
+  [ -n "$SHOW_KNOWN" ] && echo "$out" | grep "^KNOWN" | grep -o "class [^,]*, seen in [0-9]* runs" | sed "s/^/    known: /"
   [ "$verdict" = CAUGHT ] || echo "$out" | grep -v '^KNOWN' | tail -5 | cut -c1-300 | sed 's/^/    /'
 done
